@@ -136,6 +136,37 @@ def own_stmts(body: list[ast.stmt]) -> Iterator[ast.stmt]:
                 yield from own_stmts(h.body)
 
 
+class _DropAnn(ast.NodeTransformer):
+    """`x: T = v` inside functions -> `x = v` (annotation kept as `_ann`): annotations of locals have no run-time
+    meaning, and rules should not depend on whether a local is annotated."""
+
+    def __init__(self):
+        self.depth = 0
+
+    def visit_FunctionDef(self, n):
+        self.depth += 1
+        self.generic_visit(n)
+        self.depth -= 1
+        return n
+
+    def visit_ClassDef(self, n):
+        d, self.depth = self.depth, 0
+        self.generic_visit(n)
+        self.depth = d
+        return n
+
+    def visit_AnnAssign(self, n):
+        if self.depth > 0 and n.value is not None and isinstance(n.target, ast.Name):
+            a = ast.copy_location(ast.Assign([n.target], n.value), n)
+            a._ann = n.annotation
+            return a
+        return n
+
+
+def _drop_local_annotations(tree: ast.Module) -> None:
+    _DropAnn().visit(tree)
+
+
 DYNAMIC_FEATURES = {"exec", "eval", "setattr", "__import__", "globals", "locals", "vars"}
 
 
@@ -189,6 +220,7 @@ class Repo:
                     tree = ast.parse(src, filename=str(f))
                 except SyntaxError as e:
                     raise AnalysisError(f"{f} does not parse: {e}")
+                _drop_local_annotations(tree)
                 m = Module(modname, f, src, tree)
                 self.modules[modname] = m
         for m in self.modules.values():
